@@ -602,7 +602,7 @@ func minimise(e *env, start rt.Result, clause string, budget time.Duration) (rt.
 		for i, c := range cands {
 			go func(i int, c rt.Params) {
 				sem <- struct{}{}
-				r, _ := e.runOne(c)
+				r, _ := e.runOneT(c, 60*time.Second) // a candidate that wedges counts as "not reproduced"
 				<-sem
 				ch <- out{i, r}
 			}(i, c)
